@@ -475,6 +475,27 @@ theorem align_reports_achieved [LinearOrder α]
     | none => simp only [applyVec, transform, gather_map]
     | some v => simp only [applyVec, transform, translate, gather_map]
 
+/-- Where the geometry ends up, for ANY list of candidate mappings (several distinct sites of the
+molecule, symmetry permutations, …): the whole geometry is centred on the centroid of the FIRST
+mapping, turned by the rotation that `func` returned for the WINNING mapping `idx` (the one whose
+reported value `r` is returned), then shifted by `vec` — centring, rotation and reported value can
+never come from three different mappings. -/
+theorem align_final_pose [LinearOrder α]
+    (func : List (V3 α) → List (V3 α) → M3 α × α)
+    (hundred : α) (idxs : List (List Nat)) (ref coords : List (V3 α)) (vec : Option (V3 α))
+    (final : List (V3 α)) (r : α) (idx : List Nat)
+    (h : alignMol func hundred idxs ref vec coords = some (final, r, idx)) :
+    ∃ rot, func (gather (centerAt coords (idxs.headD [])) idx) ref = (rot, r) ∧
+      final = applyVec (transform (centerAt coords (idxs.headD [])) rot) vec := by
+  obtain ⟨rot, hbf, hfin⟩ := alignMol_some func hundred idxs ref coords vec final r idx h
+  have hs := bestFit_spec func (centerAt coords (idxs.headD [])) ref idxs (hundred, none) [] hundred
+    ⟨le_refl _, fun _ _ hh => by simp at hh, fun _ hh => by simp at hh⟩
+  simp only [List.nil_append] at hs
+  rw [hbf] at hs
+  obtain ⟨_, hbest, _⟩ := hs
+  obtain ⟨_, hfun, _⟩ := hbest rot idx rfl
+  exact ⟨rot, hfun, hfin⟩
+
 /-- Alignment moves the whole geometry by ONE rigid motion (centre, rotate, shift), provided the
 matrix returned by `func` is a proper rotation. -/
 theorem align_rigid [LinearOrder α]
